@@ -22,6 +22,71 @@ func propC10(c *Ctx) {
 	c.ruleC10MacroRemoved()
 	c.ruleC10CopyReset()
 	c.ruleC10CopyIdentity()
+	c.ruleC10RulesWithBody()
+}
+
+// ruleC10RulesWithBody: the ENUM rules declared inside a macro belong to its body. Wherever the body of a macro taken
+// from the macro table is expanded (handed to the expansion walk), the rules of that same body have been collected on
+// every path before: a paste site that expands the body without its rules differs from the body written in place.
+func (c *Ctx) ruleC10RulesWithBody() {
+	r := c.R
+	r.Rule("C10-RULES-WITH-BODY", "every call that expands a macro body taken from the macro table (processPasteDirectiveList(m.Children)) is dominated by the collection of the rules of the same body (collectRulesFromDirectives(m.Children)) whose error is returned", 1)
+	walk := c.P.LookupFunc("core", "JApiCore.processPasteDirectiveList")
+	collect := c.P.LookupFunc("core", "JApiCore.collectRulesFromDirectives")
+	table := c.macroTableField()
+	if walk == nil || collect == nil || table == nil {
+		r.Undecided("C10-RULES-WITH-BODY", "anchor", "processPasteDirectiveList / collectRulesFromDirectives / macro table not found", "")
+		return
+	}
+	n := 0
+	for _, f := range c.libFns() {
+		pk := f.Pkg
+		// locals bound to an entry of the macro table
+		fromTable := map[string]bool{}
+		ast.Inspect(f.Decl.Body, func(nd ast.Node) bool {
+			if as, ok := nd.(*ast.AssignStmt); ok && len(as.Rhs) == 1 {
+				if b, _, isIdx := indexOn(pk, as.Rhs[0]); isIdx && fieldSel(pk, b) == table && len(as.Lhs) >= 1 {
+					fromTable[accessPath(pk, as.Lhs[0])] = true
+				}
+			}
+			return true
+		})
+		if len(fromTable) == 0 {
+			continue
+		}
+		cf := buildCFG(f.Decl.Body)
+		for _, call := range callsIn(pk, f.Decl.Body, walk) {
+			if len(call.Args) != 1 {
+				continue
+			}
+			arg := accessPath(pk, call.Args[0])
+			isBody := false
+			for m := range fromTable {
+				if strings.HasPrefix(arg, m+".") {
+					isBody = true
+				}
+			}
+			if !isBody {
+				continue
+			}
+			n++
+			key := fmt.Sprintf("%s | expansion of %s", f.Obj.Name(), exprString(call.Args[0]))
+			ok := false
+			for _, cc := range callsIn(pk, f.Decl.Body, collect) {
+				if len(cc.Args) == 1 && accessPath(pk, cc.Args[0]) == arg && cf.dominatedBy(call, cc) {
+					ok = true
+				}
+			}
+			if ok {
+				r.Ok("C10-RULES-WITH-BODY", key, "the rules of the same body are collected on every path before it is expanded", c.pos(call.Pos()))
+			} else {
+				r.Bad("C10-RULES-WITH-BODY", key, "a macro body can be expanded without its ENUM rules having been collected (the collection is missing or conditional on the paste site): an enum used by the pasted body is not found although the body written in place works", c.pos(call.Pos()))
+			}
+		}
+	}
+	if n == 0 {
+		r.Undecided("C10-RULES-WITH-BODY", "sites", "no expansion of a macro body found", "")
+	}
 }
 
 // ruleC10CopyIdentity: the copies that the expansion makes of one macro directive share file and coordinates. A
